@@ -107,11 +107,13 @@ type End struct {
 	Seg     SegMode
 
 	// outgoing write faults
-	FailWriteAt   int // the k-th Write (1-based) fails; 0: never
-	FailPartial   int // bytes accepted by the failing write
-	writeBroken   bool
-	Writes        int
-	peerGoneWrite int
+	FailKeepaliveAt int // the k-th lone-newline write fails; 0: never
+	kaSeen          int
+	FailWriteAt     int // the k-th Write (1-based) fails; 0: never
+	FailPartial     int // bytes accepted by the failing write
+	writeBroken     bool
+	Writes          int
+	peerGoneWrite   int
 
 	KeepaliveWrites int // writes of a lone "\n"
 	WriteLog        []WriteRec
@@ -262,7 +264,11 @@ func (c *End) writeLocked(p []byte) (int, error) {
 	if c.writeBroken {
 		return 0, &net.OpError{Op: "write", Net: "tcp", Err: os.NewSyscallError("write", syscall.EPIPE)}
 	}
-	if c.FailWriteAt > 0 && c.Writes == c.FailWriteAt {
+	isKA := len(p) == 1 && p[0] == '\n'
+	if isKA {
+		c.kaSeen++
+	}
+	if (c.FailWriteAt > 0 && c.Writes == c.FailWriteAt) || (isKA && c.FailKeepaliveAt > 0 && c.kaSeen == c.FailKeepaliveAt) {
 		// A failed socket write is terminal for the connection, as in TCP.
 		c.writeBroken = true
 		c.e.Fault("conn.write_error")
